@@ -2,7 +2,7 @@ import ElvisVerif.Lemmas.ShiftPorts
 /-!
 # The hypotheses of the step theorem that are invariants of runs (C12)
 
-`TcbOk t x`: a TCB of side `x` is fresh while in SYN-SENT (`SND.UNA = ISS`, `SND.NXT = ISS+1`,
+`TcbFresh t x`: a TCB of side `x` is fresh while in SYN-SENT (`SND.UNA = ISS`, `SND.NXT = ISS+1`,
 `SND.WND = 0`), has an empty reorder heap in SYN-SENT, and emits only headers with `x`'s port.
 Established by `open` / LISTEN, kept by every operation — so `RunAdm` (what the run theorem needs)
 follows from `RunExcl` (the genuine exclusions) for runs from the initial system.
@@ -149,12 +149,12 @@ theorem processSegment_synSent (t u : Tcb) (seg : Segment) (r : ProcessSegmentRe
 def FreshKeep (t u : Tcb) : Prop :=
   u.state = .SynSent → t.state = .SynSent ∧ u.snd = t.snd ∧ u.incoming.segments = t.incoming.segments
 
-structure TcbOk (t : Tcb) (x : SideId) : Prop where
+structure TcbFresh (t : Tcb) (x : SideId) : Prop where
   fresh : SynSentFresh t
   idle : t.state = .SynSent → t.incoming.segments = []
   ports : PortsOk t x.port
 
-theorem TcbOk.step {t u : Tcb} {x : SideId} (h : TcbOk t x) (f : FreshKeep t u) (k : PortsKeep t u) : TcbOk u x := by
+theorem TcbFresh.step {t u : Tcb} {x : SideId} (h : TcbFresh t x) (f : FreshKeep t u) (k : PortsKeep t u) : TcbFresh u x := by
   refine ⟨fun hu => ?_, fun hu => ?_, h.ports.of_keep k⟩
   · obtain ⟨hs, e, _⟩ := f hu
     rw [e]; exact h.fresh hs
@@ -370,7 +370,7 @@ theorem freshKeep_segments (t u : Tcb) (segs : List Segment) (hF : SynSentFresh 
 
 /-! ## the invariant of the system, and the run theorem from the genuine exclusions only -/
 
-def SysInv (s : Sys) : Prop := ∀ x t, (s.side x).tcb = some t → TcbOk t x
+def SysInv (s : Sys) : Prop := ∀ x t, (s.side x).tcb = some t → TcbFresh t x
 
 theorem sysInv_init : SysInv {} := by
   intro x t h
@@ -385,9 +385,9 @@ theorem side_setSide_other (s : Sys) (x y : SideId) (sd : Side) (h : y ≠ x) : 
 theorem side_record (s : Sys) (segs : List Segment) (y : SideId) : (s.record segs).side y = s.side y := by
   cases y <;> rfl
 
-/-- replacing the TCB of side `x` by one that is `TcbOk` (or by none) keeps the invariant -/
+/-- replacing the TCB of side `x` by one that is `TcbFresh` (or by none) keeps the invariant -/
 theorem sysInv_setSide (s : Sys) (x : SideId) (sd : Side) (hi : SysInv s)
-    (h : ∀ t, sd.tcb = some t → TcbOk t x) : SysInv (s.setSide x sd) := by
+    (h : ∀ t, sd.tcb = some t → TcbFresh t x) : SysInv (s.setSide x sd) := by
   intro y t ht
   by_cases hy : y = x
   · subst hy
@@ -406,7 +406,7 @@ theorem portsOk_empty (t : Tcb) (p : U16) (h1 : t.localPort = p) (h2 : t.outgoin
   ⟨h1, (fun _ hh => by rw [h2] at hh; cases hh), (fun _ hh => by rw [h3] at hh; cases hh)⟩
 
 theorem tcbOk_open (x : SideId) (iss : Seq) (mtu : U16) (t : Tcb)
-    (h : Tcb.open x.port x.peer.port iss mtu = .ok t) : TcbOk t x := by
+    (h : Tcb.open x.port x.peer.port iss mtu = .ok t) : TcbFresh t x := by
   unfold Tcb.open at h
   simp only [Tcb.enqueue_eq] at h
   cases h
@@ -416,7 +416,7 @@ theorem tcbOk_open (x : SideId) (iss : Seq) (mtu : U16) (t : Tcb)
 
 theorem tcbOk_listen (x : SideId) (seg : Segment) (iss : Seq) (mtu : U16) (t : Tcb)
     (hd : seg.hdr.dstPort = x.port)
-    (h : segmentArrivesListen seg iss mtu = .ok (some (.Tcb t))) : TcbOk t x := by
+    (h : segmentArrivesListen seg iss mtu = .ok (some (.Tcb t))) : TcbFresh t x := by
   unfold segmentArrivesListen at h
   simp only [Tcb.enqueue_eq, Hdr.build_zero, Option.map_some] at h
   repeat' (split at h)
